@@ -20,6 +20,9 @@ def run(tier):
         scen.append({"kind": kind, "strategy": "drop", "sinks": "fast", "directed": "syncstop"})
     for kind in ("direct", "count", "analytic", "cep"):      # a synchronous sink blocked beyond the grace period: Stop returns all the same
         scen.append({"kind": kind, "strategy": "drop", "sinks": "fast", "directed": "stopgrace"})
+    scen.append({"kind": "cep", "strategy": "drop", "sinks": "fast", "directed": "stopgrace2"})      # the join AND the flush delivery share one grace period
+    for kind in ("tumbling", "count", "session", "global", "sliding", "direct", "cep"):      # Stop right after Execute
+        scen.append({"kind": kind, "strategy": "drop", "sinks": "fast", "directed": "stopatonce"})
     scen.append({"kind": "direct", "strategy": "expand", "sinks": "fast", "directed": "slowdrain"})
     for kind in ("late", "slide_idle"):      # watermark far ahead of the window cursor (idle timeout over historic timestamps)
         scen.append({"kind": kind, "strategy": "drop", "sinks": "fast", "directed": "idlestop"})
